@@ -38,7 +38,9 @@ Durable(stmts, j) == Run(SubSeq(stmts, 1, j), Empty, Empty, FALSE)[2]
 \* ---- observations ----
 \*  done : statements that had returned in the first process (-1: not even connect); rec : what the second process finds;
 \*  files : "none" | "some" (files under the directory); mem: an in-memory instance saw nothing / left nothing
-Obs(done, rec, files) == [done |-> done, rec |-> rec, files |-> files]
+\*  use : "ok" when the second process can go on working with what it found (CREATE TABLE with a comment and a VARCHAR length,
+\*        INSERT, read the metadata back, DROP)
+Obs(done, rec, files) == [done |-> done, rec |-> rec, files |-> files, use |-> "ok"]
 
 \* as built CREATE TABLE is three engine calls (table, comment row, length rows): a kill in between leaves the table
 \* without its comment, or with the comment but without its VARCHAR length
@@ -52,6 +54,10 @@ Steps(st, op, D) ==
   LET n == Len(op.stmts) IN
   CASE op.k = "run" /\ op.storage = "memory" ->
          {R(st, Obs(n, Empty, "none"))}                     \* in-memory instances never touch the disk nor see each other
+    [] op.k = "run" /\ op.how = "exc_again" ->
+         \* the first op.at statements run in a patch() block that is left by an exception while the application keeps its
+         \* connection object; the rest runs in a second patch() block of the same process on the same path, left cleanly
+         {R(st, Obs(n, Durable(op.stmts, n), "some"))}
     [] op.k = "run" /\ op.how \in {"exit_clean", "exit_exception"} ->
          {R(st, Obs(n, Durable(op.stmts, n), "some"))}      \* uncommitted work is absent, everything committed is there
     [] op.k = "run" /\ op.how = "kill" ->
@@ -80,11 +86,15 @@ Spells == {"upper_upper", "lower_upper", "upper_lower"}
 Ops(st) == {o \in [k : {"run"}, stmts : Histories, storage : {"path"}, how : {"exit_clean", "exit_exception"}, at : {0}, spell : Spells]
                  \cup [k : {"run"}, stmts : Histories, storage : {"path"}, how : {"kill"}, at : 1..MaxKill, spell : {"upper_upper"}]
                  \cup [k : {"run"}, stmts : Histories, storage : {"memory"}, how : {"exit_clean"}, at : {0}, spell : {"upper_upper"}]
+                 \* (the block that raises is not left inside a transaction: its uncommitted work would be gone for the second block)
+                 \cup {x \in [k : {"run"}, stmts : Histories, storage : {"path"}, how : {"exc_again"}, at : 0..MaxLen, spell : {"upper_upper"}] :
+                         x.at <= Len(x.stmts) /\ ~Run(SubSeq(x.stmts, 1, x.at), Empty, Empty, FALSE)[3]}
               : o.how \in HowUsed}
 
 \* ---- C18 on the model ----
 StepOk(st, op, r) ==
   LET n == Len(op.stmts)  j == r.obs.done IN
+  /\ r.obs.use = "ok"
   /\ (op.storage = "path" /\ op.how # "kill" => r.obs.rec = Durable(op.stmts, n))                 \* Durable + NoUncommitted
   /\ (op.storage = "path" /\ op.how = "kill" =>                                                  \* StatementAtomic
         r.obs.rec \in {Durable(op.stmts, Max(j, 0))} \cup (IF j >= 0 /\ j < n THEN {Durable(op.stmts, j + 1)} ELSE {}))
